@@ -14,6 +14,7 @@ from ..gen import exprs as X
 
 PROPERTY = "C20"
 LEVEL = "exploration"
+USES_REFERENCE_MODELS = True
 RULE = ("INSTR: all subject and pattern strings over {A,B} up to length 4 (quick) / 5 (thorough), start 1..len+1, plus the "
         "empty pattern; STRING$: counts 0..255 x strings of length 1-3; read filter: every numeric spelling the tool can put "
         "into a DATA string, the empty item; call sites through convert() with the argument roles made distinguishable; "
